@@ -7,9 +7,11 @@ open Driver Tins.Ck
 
 def hexOr (s : String) : Option Bytes := if s == "" then some [] else parseHex s
 
+/-- items `~type.hex` are transient (added, then removed again by type before the packet is used; the generator never
+    gives a transient item the type of another item of the list): the final option list is the one without them -/
 def typedList (s : String) : Option (List (Nat × Bytes)) :=
   if s == "-" then some [] else
-  (s.splitOn ",").mapM (fun item => match item.splitOn "." with
+  ((s.splitOn ",").filter (fun item => !item.startsWith "~")).mapM (fun item => match item.splitOn "." with
     | [t, h] => do let t ← t.toNat?; let d ← hexOr h; pure (t, d)
     | _ => none)
 
